@@ -1,11 +1,12 @@
 """C15 — synodic section detection: every crossing once, on the plane, in order."""
 from __future__ import annotations
 
+import os
 import sys
 from fractions import Fraction
 
 from harness.common import *  # noqa: F401,F403
-from harness.common import aidx, normal, np, Explorer, Check, Sym, W, prove_zero, model_to_env, fmt_env, rng, explore, And, Or, Not, Implies, validate
+from harness.common import aidx, normal, is_zero_syntactic, np, Explorer, Check, Sym, W, prove_zero, model_to_env, fmt_env, rng, explore, And, Or, Not, Implies, validate
 
 PID = 'C15'
 
@@ -199,6 +200,182 @@ def linear_detection(chk, N, direction, normal_name, budget, vectorised):
     chk.note('linear %s: %d paths, %d queries, %d hits checked' % (tag, st['paths'], st['queries'], nhits))
 
 
+def segment_refine_detection(chk, N, r, direction, normal_name, budget):
+    """The dense path (segment_refine = r > 0, linear interpolation): every segment is cut into r+1 sub-intervals.  The set of
+    candidates the code produces on a path is compared with the specification *decided on that path*: every specification
+    condition (on-surface sample accepted; sub-interval (k, m) holds a compatible sign change) must be implied true or implied
+    false by the path condition, and the hits reported must be exactly the candidates implied true, with the stated geometry."""
+    import hiten.algorithms.poincare.synodic.backend as SB
+    nrm = NORMALS[normal_name]
+    T = [W.var('t%d' % k) for k in range(N)]
+    X = [[W.var('x%d_%d' % (k, j)) for j in range(6)] for k in range(N)]
+    off = Sym.const(Fraction(1, 4))
+    tol, dtt, dpt = W.vars('tol_on_surface dedup_time_tol dedup_point_tol')
+    tag = 'refine=%d/N=%d/dir=%s/%s' % (r, N, direction, normal_name)
+    ex = Explorer(max_paths=20000, time_budget_s=budget, max_decisions=400)
+    with explore.activate(ex):
+        for k in range(N - 1):
+            ex.assume(T[k] < T[k + 1])
+        ex.assume(tol > 0)
+        ex.assume(dtt >= 0)
+        ex.assume(dpt >= 0)
+    G = [sum((Sym.lift(nrm[j]) * X[k][j] for j in range(6)), Sym.const(0)) - off for k in range(N)]
+    be = SB._SynodicDetectionBackend()
+    times, states = np.array(T), np.array(X)
+
+    def go():
+        return be.detect_on_trajectory(times, states, normal=np.array([float(x) for x in nrm]), offset=0.25, plane_coords=('y', 'vy'), interp_kind='linear', segment_refine=r,
+                                       tol_on_surface=tol, dedup_time_tol=dtt, dedup_point_tol=dpt, max_hits_per_traj=None, direction=direction)
+    paths = ex.run(go)
+    nhits, nfail = 0, 0
+    step = Fraction(1, r + 1)
+    for n, p in enumerate(paths):
+        base = 'C15/refine/%s/path %d' % (tag, n)
+        if p.exc is not None:
+            if isinstance(p.exc, explore.PathAbort):
+                continue
+            chk.fail(base, 'raised %r' % (p.exc,), None)
+            continue
+        hits = p.value
+        with explore.activate(ex):
+            conds = []          # (kind, k, m, condition, (time, state) if taken)
+            for k in range(N - 1):
+                onk = abs(G[k]) < tol
+                if direction is None:
+                    filt = True
+                elif direction == 1:
+                    filt = Or(G[k + 1] >= 0, (G[k - 1] <= 0) if k >= 1 else False)
+                else:
+                    filt = Or(G[k + 1] <= 0, (G[k - 1] >= 0) if k >= 1 else False)
+                acc = And(onk, filt)
+                conds.append(('on', k, None, acc, (T[k], X[k])))
+                for m in range(r + 1):
+                    s_lo, s_hi = m * step, (m + 1) * step
+                    g_lo = (1 - s_lo) * G[k] + s_lo * G[k + 1]
+                    g_hi = (1 - s_hi) * G[k] + s_hi * G[k + 1]
+                    c = spec_change(g_lo, g_hi, direction)
+                    if m == 0:
+                        c = And(c, Not(acc))
+                    # secant point of the sub-interval (exact root of the linear interpolant)
+                    dg = g_lo - g_hi
+                    a = g_lo / dg if not is_zero_syntactic(dg) else Sym.const(0)
+                    ss = s_lo + a * (s_hi - s_lo)
+                    th = (1 - ss) * T[k] + ss * T[k + 1]
+                    xh = [X[k][j] + ss * (X[k + 1][j] - X[k][j]) for j in range(6)]
+                    conds.append(('cr', k, m, c, (th, xh), (ss, s_lo, s_hi)))
+        undecided, exp, geom = None, [], []
+        for cnd in conds:
+            kind, k, m, c = cnd[:4]
+            v_true, _ = ex.prove(p, c)
+            if v_true == 'unsat':
+                taken = True
+            else:
+                v_false, _ = ex.prove(p, Not(c) if not isinstance(c, bool) else (not c))
+                if v_false == 'unsat':
+                    taken = False
+                else:
+                    undecided = (kind, k, m, v_true, v_false)
+                    break
+            if taken:
+                exp.append(cnd[4])
+                if kind == 'cr':
+                    ss, s_lo, s_hi = cnd[5]
+                    with explore.activate(ex):
+                        th, xh = cnd[4]
+                        gh = sum((Sym.lift(nrm[j]) * xh[j] for j in range(6)), Sym.const(0)) - off
+                        geom += [ss >= s_lo, ss <= s_hi, gh == 0, th >= T[k], th <= T[k + 1]]
+        oid = 'C15/refine/%s' % tag
+        if undecided is not None:
+            nfail += 1
+            if nfail == 1:
+                chk.fail(oid, 'on path %d the code does not decide the specification condition %s of segment %d%s (it reports %d hits)' % (
+                    n, 'on-surface sample accepted' if undecided[0] == 'on' else 'compatible sign change in sub-interval', undecided[1], '' if undecided[2] is None else ', sub-interval %d' % undecided[2], len(hits)),
+                    _replay_refine(r, direction, nrm), None)
+            continue
+        with explore.activate(ex):
+            sep = []
+            for i in range(len(exp) - 1):
+                (t_a, x_a), (t_b, x_b) = exp[i], exp[i + 1]
+                sep.append(abs(t_b - t_a) > dtt)
+                sep.append((x_b[1] - x_a[1]) ** 2 + (x_b[4] - x_a[4]) ** 2 > dpt * dpt)
+            order_goals = [Sym.lift(hits[i].time) <= hits[i + 1].time for i in range(len(hits) - 1)]
+            same_all = len(hits) == len(exp) and all(_same(h.time, e[0]) and all(_same(h.state[j], e[1][j]) for j in range(6)) for h, e in zip(hits, exp))
+            if not same_all and len(hits) == len(exp):
+                # same count but syntactically different (clipped secant parameter, ...): equal under the path condition?
+                eqs = []
+                for h, e in zip(hits, exp):
+                    eqs.append(Sym.lift(h.time) - e[0] == 0)
+                    eqs += [Sym.lift(h.state[j]) - e[1][j] == 0 for j in range(6)]
+                eqs = [q for q in eqs if q is not True]
+                if not any(q is False for q in eqs):
+                    v_eq, _, _ = ex.prove_all(p, eqs) if eqs else ('unsat', None, None)
+                    same_all = v_eq == 'unsat'
+        nhits += len(hits)
+        if os.environ.get('C15_DEBUG') and not same_all and len(hits) == len(exp):
+            for h, e in zip(hits, exp):
+                print('PATH', n, 'hit t', h.time, '| exp t', e[0], '| same', _same(h.time, e[0]), [(_same(h.state[j], e[1][j])) for j in range(6)])
+        v, m_, kk = ex.prove_all(p, geom + order_goals) if (geom or order_goals) else ('unsat', None, None)
+        bad = None
+        if v == 'sat':
+            bad = ('a refined hit leaves its sub-interval / the plane / its bracket, or hits are out of time order (goal %d)' % kk, model_to_env(m_))
+        elif v != 'unsat':
+            chk.unknown(base, v)
+            continue
+        elif not same_all:
+            if len(hits) > len(exp):
+                bad = ('%d hits reported but only %d compatible candidates exist' % (len(hits), len(exp)), None)
+            else:
+                v2, m2 = ex.prove(p, False, extra_assume=sep) if sep else ('sat', None)
+                if v2 == 'sat':
+                    bad = ('the reported hits (%d) are not the compatible candidates (%d) although these are separated by more than the dedup tolerances' % (len(hits), len(exp)), model_to_env(m2) if m2 is not None else None)
+                elif v2 != 'unsat':
+                    chk.unknown(base, v2)
+                    continue
+        if bad is None:
+            chk.ok(base, '%d hits = the %d candidates the specification selects on this path (on-surface samples with the direction filter, one per sub-interval with a compatible sign change), each inside its sub-interval, on the plane, time-ordered' % (len(hits), len(exp)),
+                   sample={'hits': len(hits)} if (len(hits) >= 2 and n < 80) else None)
+        else:
+            nfail += 1
+            if nfail == 1:
+                chk.fail(oid, '%s [path %d]%s' % (bad[0], n, (' at ' + fmt_env(bad[1])) if bad[1] else ''), _replay_refine(r, direction, nrm), bad[1])
+    st = chk.absorb(ex)
+    chk.note('refine %s: %d paths, %d hits checked%s' % (tag, st['paths'], nhits, ', %d paths violate the contract' % nfail if nfail else ''))
+
+
+def _replay_refine(r, direction, nrm):
+    """Compiled build: a piecewise-linear curve whose samples hit the plane exactly at known times, all crossing senses."""
+    return '''
+from hiten.algorithms.poincare.synodic.backend import _SynodicDetectionBackend
+R, DIRECTION, NRM = %r, %r, %r
+be = _SynodicDetectionBackend()
+nrm = np.array(NRM, dtype=float); j = int(np.argmax(np.abs(nrm)))
+bad = {}
+# g along the samples: values chosen so that some samples lie exactly on the plane g = 0, crossed upward, downward, or only touched
+for name, gs in (("up_down_up_on_samples", [-1.0, 0.0, 1.0, 0.0, -1.0, 0.0, 1.0]), ("between_samples", [-1.0, 1.0, -1.0, 1.0]), ("touch_from_above", [1.0, 0.0, 1.0, 2.0]), ("touch_from_below", [-1.0, 0.0, -1.0, -2.0]), ("mixed", [-0.5, 0.75, 0.0, -0.25, 0.0, 0.5])):
+    n = len(gs); times = np.arange(n, dtype=float)
+    states = np.zeros((n, 6)); states[:, j] = (np.array(gs) + 0.25) / nrm[j]
+    states[:, 1] += 0.01 * times; states[:, 4] += 0.02 * times      # keep projected points apart
+    want = []
+    for k in range(n - 1):
+        g0, g1 = gs[k], gs[k + 1]
+        if g0 == 0.0:
+            prev = gs[k - 1] if k >= 1 else None
+            ok = DIRECTION is None or (DIRECTION == 1 and (g1 >= 0 or (prev is not None and prev <= 0))) or (DIRECTION == -1 and (g1 <= 0 or (prev is not None and prev >= 0)))
+            if ok: want.append(float(k))
+            continue
+        if g0 * g1 < 0 or g1 == 0.0:
+            up = g0 < 0
+            if g1 == 0.0: continue        # reported as the on-surface sample of the next segment (if compatible)
+            if DIRECTION is None or (DIRECTION == 1) == up: want.append(k + g0 / (g0 - g1))
+    hits = be.detect_on_trajectory(times, states, normal=nrm, offset=0.25, plane_coords=("y", "vy"), interp_kind="linear", segment_refine=R, tol_on_surface=1e-12,
+                                   dedup_time_tol=1e-9, dedup_point_tol=1e-12, max_hits_per_traj=None, direction=DIRECTION)
+    got = [float(h.time) for h in hits]
+    if len(got) != len(want) or any(abs(a - b) > 1e-9 for a, b in zip(got, want)):
+        bad[name] = "hit times %%s, expected %%s" %% (np.round(got, 6).tolist(), np.round(want, 6).tolist())
+_verdict(bool(bad), **bad)
+''' % (r, direction, [float(x) for x in nrm])
+
+
 def _same(a, b):
     from engine.sym import is_zero_syntactic
     return is_zero_syntactic(Sym.lift(a) - Sym.lift(b))
@@ -312,15 +489,15 @@ def main():
     import hiten.algorithms.poincare.synodic.backend as SB
     thorough = chk.tier == 'thorough'
     chk.encode(SB._SynodicDetectionBackend.detect_on_trajectory, SB._on_surface_indices, SB._crossing_indices_and_alpha, SB._refine_hits_linear,
-               SB._refine_hits_cubic, SB._order_and_dedup_hits, SB._compute_event_values, SB._is_vectorizable_plane_event)
+               SB._refine_hits_cubic, SB._order_and_dedup_hits, SB._detect_with_segment_refine, SB._compute_event_values, SB._is_vectorizable_plane_event)
     chk.bound(samples='N = 3 (quick), N = 4 (thorough): 2 resp. 3 bracketing intervals', state_dim=6, directions='{None, +1, -1}',
               normals='two concrete normals (axis, oblique) with symbolic offset (generic event path) and a concrete offset (vectorised path)',
-              cubic='N = 4, newton_max_iter <= %d, one refined crossing per call' % (2 if thorough else 1), segment_refine='0 (refined sub-segments: not encoded)')
+              cubic='N = 4, newton_max_iter <= %d, one refined crossing per call' % (2 if thorough else 1), segment_refine='0, and 1 with N = 3 on the linear dense path (2, and N = 4, in the thorough tier)')
     chk.assume('strictly increasing sample times', 'tol_on_surface > 0, dedup tolerances >= 0 (symbolic)',
                'counting obligation: candidates separated by more than the dedup tolerances (otherwise dropping is the documented behaviour)',
                'the on-surface acceptance rule (next >= 0 or previous <= 0 for direction +1) is taken from the code comments as the specification of "samples lying on the surface"')
     chk.out_of_scope('convergence order of the hit error under grid refinement (analysis on top of the decided bracket/on-plane/derivative facts)',
-                     'segment_refine > 0 driver (_detect_with_segment_refine) beyond the shared Hermite helpers', 'symbolic plane normals')
+                     'the cubic variant of the segment_refine > 0 driver beyond the shared Hermite helpers', 'symbolic plane normals')
     hermite(chk)
     for direction in (None, 1, -1):
         linear_detection(chk, 3, direction, 'x-axis', 500, vectorised=False)
@@ -330,6 +507,13 @@ def main():
         for direction in (None, 1, -1):
             linear_detection(chk, 4, direction, 'x-axis', 3000, vectorised=False)
     cubic_refine(chk, None, 400, 2 if thorough else 1)
+    for direction in (None, 1, -1):
+        segment_refine_detection(chk, 3, 1, direction, 'x-axis', 600)
+    if thorough:
+        for direction in (None, 1, -1):
+            segment_refine_detection(chk, 3, 2, direction, 'x-axis', 2400)
+        segment_refine_detection(chk, 4, 1, -1, 'x-axis', 2400)
+        segment_refine_detection(chk, 3, 1, 1, 'oblique', 2400)
     return chk.finish()
 
 
